@@ -1143,3 +1143,60 @@ Theorem start_stop_log i : wf i -> forall s, s < n_sinks i ->
   /\ (forall k o, nth_error (ops i) k = Some o -> In s (registration o) ->
         log = (if in_run (firstn k (ops i)) then [StartRun] else []) ++ flat_map ss_of_op (skipn (S k) (ops i))).
 Proof. intros H s. exact (start_stop_log_once i (wf_is_base i H) s (wf_once i H s)). Qed.
+
+(* ---------- add_rule called from inside a sink's startTestRun (Model.Router.start_reentrant) ---------- *)
+Lemma step_add_sinks r o : is_add o = true ->
+  exists ext, r_sinks (fst (step r o)) = r_sinks r ++ ext
+              /\ r_in_run (fst (step r o)) = r_in_run r
+              /\ (r_in_run r = false -> snd (step r o) = (false, [])).
+Proof.
+  destruct o as [s p c ss|s t ss| | | |]; simpl; try discriminate; intros _; unfold register;
+    destruct ss; simpl.
+  - exists [s]. repeat split. intros ->. reflexivity.
+  - exists []. rewrite app_nil_r. repeat split.
+  - exists [s]. repeat split. intros ->. reflexivity.
+  - exists []. rewrite app_nil_r. repeat split.
+Qed.
+
+Lemma apply_adds_sinks adds : forall r, forallb is_add adds = true -> r_in_run r = false ->
+  exists ext, r_sinks (apply_adds r adds) = r_sinks r ++ ext
+              /\ r_in_run (apply_adds r adds) = false
+              /\ Forall (fun out => out = (false, [])) (run r adds).
+Proof.
+  induction adds as [|o adds IH]; intros r Ha Hr.
+  - exists []. simpl. rewrite app_nil_r. repeat split; [exact Hr|constructor].
+  - cbn [forallb] in Ha. apply andb_true_iff in Ha. destruct Ha as [Ho Ha].
+    destruct (step_add_sinks r o Ho) as [e1 [S1 [R1 O1]]].
+    unfold apply_adds. cbn [fold_left run]. fold (apply_adds (fst (step r o)) adds).
+    destruct (step r o) as [r1 out1] eqn:E. cbn [fst snd] in *.
+    assert (Hr1 : r_in_run r1 = false) by (rewrite R1; exact Hr).
+    destruct (IH r1 Ha Hr1) as [e2 [S2 [R2 O2]]].
+    exists (e1 ++ e2). rewrite S2, S1, app_assoc. repeat split; [exact R2|].
+    constructor; [apply O1; exact Hr|exact O2].
+Qed.
+
+(* the re-entrant calls deliver nothing themselves, and the run-opening startTestRun during which they are made
+   delivers exactly what a startTestRun issued AFTER them delivers - one StartRun to every registered sink, old
+   and new, in list order - and leaves the same router state *)
+Theorem reentrant_start_is_adds_then_start r k adds :
+  r_in_run r = false -> k < length (r_sinks r) -> forallb is_add adds = true ->
+  Forall (fun out => out = (false, [])) (run r adds)
+  /\ start_reentrant r k adds = step (apply_adds r adds) Start.
+Proof.
+  intros Hr Hk Ha. destruct (apply_adds_sinks adds r Ha Hr) as [ext [HS [R O]]].
+  split; [exact O|]. unfold start_reentrant. cbn [step]. f_equal. f_equal.
+  rewrite <- map_app. f_equal.
+  rewrite HS. rewrite skipn_app.
+  replace (S k - length (r_sinks r)) with 0 by lia. cbn [skipn].
+  rewrite app_assoc. rewrite firstn_skipn. reflexivity.
+Qed.
+
+(* hence every sink registered when the loop ends has received startTestRun exactly as often as it is listed *)
+Corollary reentrant_start_once r k adds s :
+  r_in_run r = false -> k < length (r_sinks r) -> forallb is_add adds = true ->
+  count_occ Nat.eq_dec (map fst (snd (snd (start_reentrant r k adds)))) s
+  = count_occ Nat.eq_dec (r_sinks (apply_adds r adds)) s.
+Proof.
+  intros Hr Hk Ha. destruct (reentrant_start_is_adds_then_start r k adds Hr Hk Ha) as [_ E].
+  rewrite E. simpl. rewrite map_map. simpl. rewrite map_id. reflexivity.
+Qed.
